@@ -843,6 +843,11 @@ def c05_plants(tmpl, g, r, kinds=None):
     blobs["Zb"] = [("a", INT), ("b", STR)]
     enums = dict(g.enums)
     enums["Ze"] = [("P", INT), ("Q", None)]
+
+    class _Decls:
+        pass
+    g = _Decls()
+    g.blobs, g.enums = blobs, enums
     for bn in sorted(blobs):
         fs = blobs[bn]
         inits = ["%s: %s" % (f, closed_expr(ft, g, r)) for f, ft in fs]
@@ -1083,3 +1088,151 @@ def tie_cases(exe, cases):
                 rec["agree"] = False
                 rec["model"] = rec["model"] + ("file=" + name,)
     return out
+
+
+# ------------------------------------------------------------------------------------------------
+# resolved S-expression (tools/resolved_io.py) -> Coq term of type Syntax.Resolved.resolved, for
+# refutation witnesses and Examples in coq/Types/*.v and coq/Props/*.v
+
+def sexp_to_coq(text):
+    toks = re.findall(r"\(|\)|[^\s()]+", text)
+    pos = [0]
+
+    def parse():
+        t = toks[pos[0]]
+        pos[0] += 1
+        if t == "(":
+            items = []
+            while toks[pos[0]] != ")":
+                items.append(parse())
+            pos[0] += 1
+            return items
+        return t
+
+    def s(a):
+        assert a.startswith("s:")
+        b = bytes.fromhex(a[2:]) if a[2:] != "-" else b""
+        return '"%s"' % b.decode("utf-8").replace('"', '""')
+
+    def lst(x, f):
+        assert x[0] == "l"
+        return "[" + "; ".join(f(y) for y in x[1:]) + "]"
+
+    def sp(x):
+        return "(mkSpan %s %s %s %s %s)" % tuple(x[1:6])
+
+    def opt(x, f):
+        return "None" if x == "none" else "(Some %s)" % f(x[1])
+
+    def bl(x):
+        return "true" if x == "t" else "false"
+
+    def n(x):
+        return "%s%%N" % x
+
+    def ty(x):
+        k = x[0]
+        if k == "TUser":
+            return "(TUser %s %s %s)" % (n(x[1]), lst(x[2], ty), sp(x[3]))
+        if k == "TImplied":
+            return "(TImplied %s)" % sp(x[1])
+        if k == "TResolved":
+            return "(TResolved %s %s)" % (x[1], sp(x[2]))
+        if k == "TGeneric":
+            return "(TGeneric %s %s)" % (s(x[1]), sp(x[2]))
+        if k == "TTuple":
+            return "(TTuple %s %s)" % (lst(x[1], ty), sp(x[2]))
+        if k == "TList":
+            return "(TList %s %s)" % (ty(x[1]), sp(x[2]))
+        if k == "TFn":
+            cons = lst(x[1], lambda c: "(%s, %s)" % (s(c[1]), lst(c[2], lambda tc: "(mkTC %s %s)" % (s(tc[1]), lst(tc[2], s)))))
+            return "(TFn %s %s %s %s %s)" % (cons, lst(x[2], ty), ty(x[3]), bl(x[4]), sp(x[5]))
+        raise ValueError(k)
+
+    def expr(x):
+        k = x[0]
+        if k == "ERead":
+            return "(ERead %s %s)" % (n(x[1]), sp(x[2]))
+        if k == "EVariant":
+            return "(EVariant %s %s %s %s)" % (n(x[1]), s(x[2]), expr(x[3]), sp(x[4]))
+        if k == "ECall":
+            return "(ECall %s %s %s)" % (expr(x[1]), lst(x[2], expr), sp(x[3]))
+        if k == "EBlobAccess":
+            return "(EBlobAccess %s %s %s)" % (expr(x[1]), s(x[2]), sp(x[3]))
+        if k == "EIndex":
+            return "(EIndex %s %s %s)" % (expr(x[1]), expr(x[2]), sp(x[3]))
+        if k == "EBinOp":
+            return "(EBinOp %s %s %s %s)" % (x[1], expr(x[2]), expr(x[3]), sp(x[4]))
+        if k == "EUniOp":
+            return "(EUniOp %s %s %s)" % (x[1], expr(x[2]), sp(x[3]))
+        if k == "EIf":
+            return "(EIf %s %s)" % (lst(x[1], lambda b: "(IfBranch %s %s %s)" % (opt(b[1], expr), stmts(b[2]), sp(b[3]))), sp(x[2]))
+        if k == "ECase":
+            return "(ECase %s %s %s %s)" % (
+                expr(x[1]),
+                lst(x[2], lambda b: "(CaseBranch %s %s %s %s %s)" % (s(b[1]), sp(b[2]), opt(b[3], n), stmts(b[4]), sp(b[5]))),
+                opt(x[3], stmts), sp(x[4]))
+        if k == "EFunction":
+            ps = lst(x[2], lambda p: "(%s, %s, %s, %s)" % (s(p[1]), n(p[2]), sp(p[3]), ty(p[4])))
+            return "(EFunction %s %s %s %s %s %s)" % (s(x[1]), ps, ty(x[3]), stmts(x[4]), bl(x[5]), sp(x[6]))
+        if k == "EBlob":
+            return "(EBlob %s %s %s %s)" % (n(x[1]), lst(x[2], lambda f: "(%s, %s)" % (s(f[1]), expr(f[2]))), n(x[3]), sp(x[4]))
+        if k == "ECollection":
+            return "(ECollection %s %s %s)" % (x[1], lst(x[2], expr), sp(x[3]))
+        if k == "EFloat":
+            return "(EFloat %s %s)" % (s(x[1]), sp(x[2]))
+        if k == "EInt":
+            return "(EInt (%s)%%Z %s)" % (x[1], sp(x[2]))
+        if k == "EStr":
+            return "(EStr %s %s)" % (s(x[1]), sp(x[2]))
+        if k == "EBool":
+            return "(EBool %s %s)" % (bl(x[1]), sp(x[2]))
+        if k == "ENil":
+            return "(ENil %s)" % sp(x[1])
+        raise ValueError(k)
+
+    def fields(x):
+        return lst(x, lambda f: "(%s, (%s, %s))" % (s(f[1]), sp(f[2]), ty(f[3])))
+
+    def stmt(x):
+        k = x[0]
+        if k == "SAssignment":
+            return "(SAssignment %s %s %s %s)" % (x[1], expr(x[2]), expr(x[3]), sp(x[4]))
+        if k == "SBlob":
+            return "(SBlob %s %s %s %s %s %s)" % (s(x[1]), n(x[2]), sp(x[3]), lst(x[4], s), fields(x[5]), bl(x[6]))
+        if k == "SEnum":
+            return "(SEnum %s %s %s %s %s)" % (s(x[1]), n(x[2]), sp(x[3]), lst(x[4], s), fields(x[5]))
+        if k == "SDefinition":
+            return "(SDefinition %s %s %s %s %s %s)" % (s(x[1]), n(x[2]), x[3], ty(x[4]), expr(x[5]), sp(x[6]))
+        if k == "SExternalDefinition":
+            return "(SExternalDefinition %s %s %s %s %s)" % (s(x[1]), n(x[2]), x[3], ty(x[4]), sp(x[5]))
+        if k == "SLoop":
+            return "(SLoop %s %s %s)" % (expr(x[1]), stmts(x[2]), sp(x[3]))
+        if k in ("SBreak", "SContinue", "SUnreachable"):
+            return "(%s %s)" % (k, sp(x[1]))
+        if k == "SRet":
+            return "(SRet %s %s)" % (opt(x[1], expr), sp(x[2]))
+        if k == "SBlock":
+            return "(SBlock %s %s)" % (stmts(x[1]), sp(x[2]))
+        if k == "SStatementExpression":
+            return "(SStatementExpression %s %s)" % (expr(x[1]), sp(x[2]))
+        raise ValueError(k)
+
+    def stmts(x):
+        return lst(x, stmt)
+
+    def var(x):
+        return "(mkVar %s %s %s %s %s)" % (n(x[1]), s(x[2]), sp(x[3]), bl(x[4]), x[5])
+
+    root = parse()
+    assert root[0] == "resolved"
+    return "(mkResolved\n  %s\n  %s)" % (lst(root[1], var), stmts(root[2]))
+
+
+def source_to_coq(src, std=False):
+    """the resolved program the real compiler hands to its type checker, as a Coq term"""
+    import vlib
+    import resolved_io
+    l = vlib.harness("phases", [case_line(src, std)])[0]
+    d, tail = resolved_io.parse_phases_line(l)
+    return sexp_to_coq(resolved_io.resolved_sexp(d["vars"], d["ordered"])), tail
